@@ -5,7 +5,8 @@
   (max of project start, own/inherited pinned start, predecessor end/start + gap) and take a slot iff
   every allocated resource is working the whole slot (RefCalendar), entirely unbooked, and every
   applicable daily / weekly limit (own resource, enclosing resource groups, the task and enclosing
-  tasks) still has room; stop when effort is reached; milestones sit at their bound.
+  tasks) still has room; stop when effort is reached; milestones sit at their bound (milestones with a typed
+  date of their own are in place before the loop starts).
 
 Core dialect only (slot-aligned calendars and gaps, efforts that are whole slots at the resource's
 efficiency); the caller guarantees that. Returns {fullId: (scheduled, start, end)} for all leaves.
@@ -114,6 +115,14 @@ def ref_schedule(spec, horizon_end=None):
         return (True, min(placed[l][1] for l in ls), max(placed[l][2] for l in ls))
 
     remaining = list(order)
+    # milestones with a date typed on the task itself sit at that date and take no resource: they are in place before any work is
+    # (the scheduler's pre-pass) - a task that waits for them, or for a container of them, is ready from the beginning
+    for f in list(remaining):
+        t = deps.node[f]
+        own = t.get("start") or t.get("end")
+        if own and (t.get("milestone") or not inherited(f, "effort")) and not (t.get("start") and t.get("end") and t["start"] != t["end"]):
+            placed[f] = (True, parse_date(own), parse_date(own))
+            remaining.remove(f)
     while remaining:
         pick = None
         for f in remaining:
